@@ -864,6 +864,9 @@ func extractGlobals(repo, gen, facts string) {
 	listeners := extractListenerDiscipline(pkgOrder)
 	paramWrites := extractParamWrites(pkgOrder)
 	sliceGetters, resultAppends := extractSliceGetters(pkgOrder)
+	fieldWrites, fieldNotes := extractFieldWrites(pkgOrder)
+	notes = append(notes, fieldNotes...)
+	pools, poolPuts, freeLists := extractPools(pkgOrder)
 	type fact struct {
 		Globals       []globalVar          `json:"globals"`
 		Closures      []closureRec         `json:"closures"`
@@ -874,9 +877,13 @@ func extractGlobals(repo, gen, facts string) {
 		ParamWrites   []paramWrite         `json:"paramWrites"`
 		SliceGetters  []sliceGetter        `json:"sliceGetters"`
 		ResultAppends []resultAppend       `json:"resultAppends"`
+		FieldWrites   []fieldWrite         `json:"fieldWrites"`
+		Pools         []poolDecl           `json:"pools"`
+		PoolPuts      []poolPut            `json:"poolPuts"`
+		FreeLists     []freeList           `json:"freeLists"`
 		Notes         []string             `json:"notes,omitempty"`
 	}
-	js, _ := json.MarshalIndent(fact{all, closures, appends, nodeWrites, configCalls, listeners, paramWrites, sliceGetters, resultAppends, notes}, "", " ")
+	js, _ := json.MarshalIndent(fact{all, closures, appends, nodeWrites, configCalls, listeners, paramWrites, sliceGetters, resultAppends, fieldWrites, pools, poolPuts, freeLists, notes}, "", " ")
 	writeIfChanged(filepath.Join(facts, "globals.json"), string(js)+"\n")
 
 	var b strings.Builder
@@ -972,6 +979,36 @@ func extractGlobals(repo, gen, facts string) {
 			b.WriteString(",\n")
 		}
 		fmt.Fprintf(&b, "  { pkg := %q, func := %q, getter := %q, via := %q }", r.Pkg, r.Func, r.Getter, r.Via)
+	}
+	b.WriteString("]\n\ndef fieldWrites : List FieldWrite := [\n")
+	for i, w := range fieldWrites {
+		if i > 0 {
+			b.WriteString(",\n")
+		}
+		fmt.Fprintf(&b, "  { pkg := %q, typ := %q, method := %q, field := %q, how := .%s, api := .%s, shared := %v, underLock := %v }",
+			w.Pkg, w.Type, w.Method, w.Field, w.How, w.Api, w.Shared, w.UnderLock)
+	}
+	b.WriteString("]\n\ndef pools : List PoolDecl := [\n")
+	for i, w := range pools {
+		if i > 0 {
+			b.WriteString(",\n")
+		}
+		fmt.Fprintf(&b, "  { pkg := %q, name := %q, decl := %q }", w.Pkg, w.Name, w.Decl)
+	}
+	b.WriteString("]\n\ndef poolPuts : List PoolPut := [\n")
+	for i, w := range poolPuts {
+		if i > 0 {
+			b.WriteString(",\n")
+		}
+		fmt.Fprintf(&b, "  { pkg := %q, pool := %q, func := %q, arg := %q, argKind := .%s, deferred := %v, usedAfter := %v, escapes := %q }",
+			w.Pkg, w.Pool, w.Func, w.Arg, w.ArgKind, w.Deferred, w.UsedAfter, w.Escapes)
+	}
+	b.WriteString("]\n\ndef freeLists : List FreeList := [\n")
+	for i, w := range freeLists {
+		if i > 0 {
+			b.WriteString(",\n")
+		}
+		fmt.Fprintf(&b, "  { pkg := %q, name := %q, typ := %q, func := %q }", w.Pkg, w.Name, w.Type, w.Func)
 	}
 	b.WriteString("]\nend StorageModel.Generated\n")
 	writeIfChanged(filepath.Join(gen, "Globals.lean"), b.String())
